@@ -604,7 +604,9 @@ def ff_family(w, pid, corrupt, what):
         # resets inside the six-round activation window of a join, a validator of the
         # old set staying quiet (its root must still be in every frame)
         t10, s10 = drive_all(w, gossip_specs(w, [("ffW", dict(traces=9 if q else 30, n=4, steps=240, arg="window"))]), mode="ff")
-        traces, sums = traces + t8 + t9 + t10, sums + s8 + s9 + s10
+        # the anchor block itself carries a receipt and is not the first change of the history
+        t11, s11 = drive_all(w, gossip_specs(w, [("ffJ", dict(traces=4 if q else 12, n=4, steps=240, arg="twojoins"))]), mode="ff")
+        traces, sums = traces + t8 + t9 + t10 + t11, sums + s8 + s9 + s10 + s11
     tvs = w.validate_many(traces, par=6)
     violations, known_hits, drift = judge(w, pid, tvs, known)
     if pid == "C13":
